@@ -21,6 +21,7 @@
 """SSH connection handlers"""
 
 import asyncio
+import errno
 import functools
 import getpass
 import inspect
@@ -3377,6 +3378,10 @@ class SSHConnection(SSHPacketHandler, asyncio.Protocol):
             return await self.create_unix_connection(session_factory,
                                                      dest_path)
 
+        if listen_path in self._local_listeners:
+            raise OSError(errno.EADDRINUSE, f'UNIX listener on {listen_path} '
+                          'is already being forwarded')
+
         self.logger.info('Creating local UNIX forwarder from %s to %s',
                          listen_path, dest_path)
 
@@ -5461,6 +5466,10 @@ class SSHClientConnection(SSHConnection):
 
             return await self.create_connection(session_factory, dest_host,
                                                 dest_port, '', 0)
+
+        if listen_path in self._local_listeners:
+            raise OSError(errno.EADDRINUSE, f'UNIX listener on {listen_path} '
+                          'is already being forwarded')
 
         self.logger.info('Creating local UNIX forwarder from %s to %s',
                          listen_path, (dest_host, dest_port))
